@@ -193,6 +193,25 @@ def apply_op(ctx, st, op, case):
                 else:
                     w.utxos_update()
                 st.flags.add('funding_record_deleted_and_reported_again')
+        elif name == 'delete_received':
+            # records of transactions that only PAID this wallet (unspent, not sent by it) are deleted: one of them, or
+            # all of them - the wallet then owns nothing although nothing was spent
+            funding_of_spent = set(o[0] for o in st.spent)
+            cands = sorted(set(u['txid'] for u in w.utxos() if u['txid'] not in st.stored and
+                               u['txid'] not in funding_of_spent))
+            if cands:
+                for txid in (cands if op.get('all') else [cands[op['pick'] % len(cands)]]):
+                    w.transaction_delete(txid)
+                st.flags.add('received_deleted_all' if op.get('all') else 'received_deleted')
+                if not w.utxos():
+                    st.flags.add('emptied_by_deletion')
+        elif name == 'remove_unconfirmed':
+            w.transactions_remove_unconfirmed()
+            gone = [txid for txid in st.stored if w.transaction(txid) is None]
+            for txid in gone:
+                del st.stored[txid]
+            st.spent = {k: v for k, v in st.spent.items() if v not in gone}
+            st.flags.add('remove_unconfirmed')
         elif name == 'delete':
             if st.stored:
                 if 'last' in op:
@@ -379,6 +398,9 @@ def _strategy(ctx):
                                    medium=st.sampled_from(['object', 'dict', 'raw']))),
         st.fixed_dictionaries({'op': st.just('delete'), 'key': st.integers(0, 5)}),
         st.fixed_dictionaries({'op': st.just('delete_funding'), 'pick': st.integers(0, 5)}),
+        st.fixed_dictionaries({'op': st.just('delete_received'), 'pick': st.integers(0, 5),
+                               'all': st.sampled_from([False, True, True])}),
+        st.just({'op': 'remove_unconfirmed'}),
         st.just({'op': 'new_account'}),
         st.fixed_dictionaries({'op': st.just('sweep_account'), 'pick': st.integers(0, 3)}),
         st.just({'op': 'reopen'}), st.just({'op': 'second_reader'}),
